@@ -9,10 +9,56 @@ import (
 	"golang.org/x/tools/go/ssa"
 )
 
+// isFailureLike: a result type through which a function reports failure to its caller — the
+// error interface, a module type that implements it, or a pointer to a module struct that carries
+// an error (an internal "what failed and why" descriptor handed from a shared helper to Save and
+// ToBytes, which wrap it differently).  nil means success for all of them.
+func isFailureLike(t types.Type) bool {
+	if isErrorType(t) {
+		return true
+	}
+	if _, ok := t.Underlying().(*types.Interface); ok {
+		return false
+	}
+	ms := types.NewMethodSet(t)
+	for i := 0; i < ms.Len(); i++ {
+		if f, ok := ms.At(i).Obj().(*types.Func); ok && f.Name() == "Error" {
+			if sg := f.Type().(*types.Signature); sg.Params().Len() == 0 && sg.Results().Len() == 1 {
+				if b, ok := sg.Results().At(0).Type().(*types.Basic); ok && b.Kind() == types.String {
+					return true
+				}
+			}
+		}
+	}
+	if pt, ok := t.(*types.Pointer); ok {
+		if n, ok := pt.Elem().(*types.Named); ok && n.Obj().Pkg() != nil && strings.HasPrefix(n.Obj().Pkg().Path(), modPath) {
+			if st, ok := n.Underlying().(*types.Struct); ok {
+				for i := 0; i < st.NumFields(); i++ {
+					if isErrorType(st.Field(i).Type()) {
+						return true
+					}
+				}
+			}
+		}
+	}
+	return false
+}
+
+// failIndex: index of the (last) failure-like result of sig, -1 if none.
+func failIndex(sig *types.Signature) int {
+	rs := sig.Results()
+	for i := rs.Len() - 1; i >= 0; i-- {
+		if isFailureLike(rs.At(i).Type()) {
+			return i
+		}
+	}
+	return -1
+}
+
 // errValueOf returns the SSA value holding the error result of call c (nil if none).
 func errValueOf(c *ssa.Call) ssa.Value {
 	sig := c.Call.Signature()
-	idx := errorResultIndex(sig)
+	idx := failIndex(sig)
 	if idx < 0 {
 		return nil
 	}
@@ -39,7 +85,7 @@ func errChecked(fn *ssa.Function, ev ssa.Value) (bool, string) {
 	if refs == nil {
 		return false, "the error result is never read"
 	}
-	errIdx := errorResultIndex(fn.Signature)
+	errIdx := failIndex(fn.Signature)
 	// `err = f(); if err != nil` with err living in memory (captured by a deferred closure):
 	// follow the store to the next load of the same variable in that block
 	for _, in := range *refs {
@@ -141,13 +187,20 @@ func ruleSaveErr(r *Run) {
 			}
 			touches := false
 			allInstrs(g, func(in ssa.Instruction) {
-				if c, ok := in.(ssa.CallInstruction); ok && strings.Contains(calleeName(c), "archive/zip") {
+				c, ok := in.(ssa.CallInstruction)
+				if !ok {
+					return
+				}
+				if strings.Contains(calleeName(c), "archive/zip") {
+					touches = true
+				}
+				// …or it runs the fallible regeneration steps (a module function that can fail and
+				// writes the part map), e.g. a refreshParts() helper shared by Save and ToBytes
+				if cal := staticCallee(c); cal != nil && p.inModule(cal) && failIndex(cal.Signature) >= 0 && isPartRegenerator(p, cal) {
 					touches = true
 				}
 			})
-			if touches && !reachesFrom(p, g, otherEntry(p, e.name)) {
-				group = append(group, g)
-			} else if touches {
+			if touches {
 				group = append(group, g)
 			}
 		}
@@ -167,7 +220,12 @@ func ruleSaveErr(r *Run) {
 					if cn == "os.Create" || cn == "os.OpenFile" {
 						createsFile = true
 					}
-					if errorResultIndex(x.Call.Signature()) < 0 {
+					if failIndex(x.Call.Signature()) < 0 {
+						return
+					}
+					// constructing or wrapping an error is not a fallible operation: fmt.Errorf(…),
+					// WrapError(op, err) with a non-nil err — there is nothing to check
+					if !callMayBeNil(p, fn, x, -1, 0) {
 						return
 					}
 					nErr++
@@ -188,7 +246,7 @@ func ruleSaveErr(r *Run) {
 			// success returns must be preceded by checked closes
 			nRet := 0
 			for _, ret := range returnsOf(fn) {
-				ei := errorResultIndex(fn.Signature)
+				ei := failIndex(fn.Signature)
 				if ei < 0 || !mayReportSuccess(p, fn, ret, ei) {
 					continue
 				}
@@ -224,74 +282,101 @@ func ruleSaveErr(r *Run) {
 	}
 }
 
-func otherEntry(p *Program, name string) *ssa.Function { return nil }
+// isPartRegenerator: fn stores into Document.parts (directly or through a keyed helper).
+func isPartRegenerator(p *Program, fn *ssa.Function) bool {
+	for _, ps := range partStoresCached(p) {
+		if ps.Fn == fn {
+			return true
+		}
+	}
+	return false
+}
 
-func reachesFrom(p *Program, g, from *ssa.Function) bool { return false }
+// partsLoops: the loops of fn that visit every part of the part map — a range over
+// Document.parts itself, or over a slice that collects every key of it (names gathered by an
+// unfiltered range, then usually sorted: deterministic entry order).
+type partsLoop struct {
+	L      *natLoop
+	RI     *rangeInfo
+	ByKeys bool // ranges over the collected keys; the bytes are looked up per key
+}
 
-// rulePartsLoop: in fn, every iteration of the range over Document.parts passes through
-// (*zip.Writer).Create and Write (or leaves the function).
+func partsLoopsOf(p *Program, fn *ssa.Function) []partsLoop {
+	var out []partsLoop
+	for _, l := range naturalLoops(fn) {
+		ri := rangeOf(l)
+		if ri == nil {
+			continue
+		}
+		if ld, ok := ri.X.(*ssa.UnOp); ok && ld.Op == token.MUL {
+			if fv, _ := fieldOfAddr(ld.X); fieldIs(p, fv, pkgDoc, "Document", "parts") {
+				out = append(out, partsLoop{l, ri, false})
+				continue
+			}
+		}
+		if _, isSlice := ri.X.Type().Underlying().(*types.Slice); isSlice {
+			c := &collector{p: p}
+			if ok, why := c.containsAll(ri.X); ok && strings.Contains(why, "the collection parts itself") {
+				out = append(out, partsLoop{l, ri, true})
+			}
+		}
+	}
+	return out
+}
+
+// rulePartsLoop: in fn, every iteration of a loop over the part map that writes ZIP entries passes
+// through (*zip.Writer).Create and Write (or leaves the function).  Loops over the part map that
+// write nothing (size estimates, key collection) carry no obligation.  Returns the number of
+// writing loops.
 func rulePartsLoop(r *Run, fn *ssa.Function) int {
 	p := r.P
 	n := 0
-	allInstrs(fn, func(in ssa.Instruction) {
-		rg, ok := in.(*ssa.Range)
-		if !ok {
-			return
+	isCreate := func(cn string) bool { return cn == "(*archive/zip.Writer).Create" || cn == "(*archive/zip.Writer).CreateHeader" }
+	isWrite := func(cn string) bool { return strings.HasSuffix(cn, ".Write") || strings.HasSuffix(cn, ").Write") }
+	for _, pl := range partsLoopsOf(p, fn) {
+		l := pl.L
+		// does the loop write entries at all?
+		writes := false
+		cuts := map[string]map[*ssa.BasicBlock]bool{"(*archive/zip.Writer).Create": {}, "Write": {}}
+		for b := range l.Body {
+			for _, in := range b.Instrs {
+				c, ok := in.(*ssa.Call)
+				if !ok {
+					continue
+				}
+				cn := calleeName(c)
+				cal := staticCallee(c)
+				helper := cal != nil && p.inModule(cal)
+				if isCreate(cn) || (helper && alwaysCallsOnSuccess(p, cal, isCreate, 0)) {
+					cuts["(*archive/zip.Writer).Create"][b] = true
+					writes = true
+				}
+				if isWrite(cn) || (helper && alwaysCallsOnSuccess(p, cal, isWrite, 0)) {
+					cuts["Write"][b] = true
+					writes = true
+				}
+			}
 		}
-		chain, _ := addrChain(rg.X)
-		if len(chain) == 0 || !fieldIs(p, chain[len(chain)-1], pkgDoc, "Document", "parts") {
-			return
+		if !writes {
+			continue
 		}
 		n++
-		// header = block containing Next
-		var next *ssa.Next
-		if refs := rg.Referrers(); refs != nil {
-			for _, u := range *refs {
-				if nx, ok := u.(*ssa.Next); ok {
-					next = nx
-				}
-			}
+		iff, ok := l.Header.Instrs[len(l.Header.Instrs)-1].(*ssa.If)
+		if !ok {
+			r.Undecided("part-pass", shortName(fn)+":loop", l.Header.Instrs[0].Pos(), "unexpected loop shape")
+			continue
 		}
-		if next == nil {
-			r.Undecided("part-pass", shortName(fn)+":loop", rg.Pos(), "range without Next")
-			return
-		}
-		header := next.Block()
-		var body *ssa.BasicBlock
-		if iff, ok := header.Instrs[len(header.Instrs)-1].(*ssa.If); ok {
-			_ = iff
-			body = header.Succs[0]
-		}
-		if body == nil {
-			r.Undecided("part-pass", shortName(fn)+":loop", rg.Pos(), "unexpected loop shape")
-			return
+		body := iff.Block().Succs[0]
+		if !l.Body[body] {
+			body = iff.Block().Succs[1]
 		}
 		for _, want := range []string{"(*archive/zip.Writer).Create", "Write"} {
-			cut := map[*ssa.BasicBlock]bool{}
-			matches := func(cn string) bool {
-				return cn == want || (want == "Write" && (strings.HasSuffix(cn, ".Write") || strings.HasSuffix(cn, ").Write")))
-			}
-			allInstrs(fn, func(in2 ssa.Instruction) {
-				if c, ok := in2.(*ssa.Call); ok {
-					cn := calleeName(c)
-					if matches(cn) {
-						cut[c.Block()] = true
-					}
-					// a helper that performs the step on every path on which it succeeds
-					if cal := staticCallee(c); cal != nil && p.inModule(cal) && alwaysCallsOnSuccess(p, cal, matches, 0) {
-						cut[c.Block()] = true
-					}
-				}
-			})
-			reach := reachableBlocks(body, cut)
-			ok := !reach[header] || cut[body]
-			if cut[body] {
-				ok = true
-			}
-			r.Check("part-pass", shortName(fn)+":loop:"+want, rg.Pos(), ok,
+			cut := cuts[want]
+			ok := cut[body] || !reachableBlocks(body, cut)[l.Header]
+			r.Check("part-pass", shortName(fn)+":loop:"+want, l.Header.Instrs[0].Pos(), ok,
 				fmt.Sprintf("every iteration over Document.parts in %s must reach %s before the next iteration (no part may be skipped)", shortName(fn), want))
 		}
-	})
+	}
 	return n
 }
 
@@ -442,18 +527,8 @@ func ruleSaveVerbatim(r *Run) {
 		}
 		found := false
 		for _, fn := range sortedFuncs(p.staticReach(root)) {
-			for _, l := range naturalLoops(fn) {
-				ri := rangeOf(l)
-				if ri == nil {
-					continue
-				}
-				ld, ok := ri.X.(*ssa.UnOp)
-				if !ok {
-					continue
-				}
-				if fv, _ := fieldOfAddr(ld.X); !fieldIs(p, fv, pkgDoc, "Document", "parts") {
-					continue
-				}
+			for _, pl := range partsLoopsOf(p, fn) {
+				l, ri := pl.L, pl.RI
 				// the write may sit in a helper called from the loop: writeZipEntry(zw, name, data)
 				type wsite struct {
 					c   ssa.CallInstruction
@@ -501,8 +576,18 @@ func ruleSaveVerbatim(r *Run) {
 						arg := ws.arg
 						verb := false
 						for _, e := range ri.Elem {
-							if ex, ok := e.(*ssa.Extract); ok && ex.Index == 2 && arg == ssa.Value(ex) {
+							if ex, ok := e.(*ssa.Extract); ok && ex.Index == 2 && arg == ssa.Value(ex) && !pl.ByKeys {
 								verb = true
+							}
+							// data := d.parts[name] with name the loop's own key
+							if lk, ok := arg.(*ssa.Lookup); ok && !lk.CommaOk {
+								if fv, _ := fieldOfAddr(stripLoadAddr(lk.X)); fieldIs(p, fv, pkgDoc, "Document", "parts") {
+									if lk.Index == e || (isLoadOf(lk.Index, e)) {
+										if ex, ok := e.(*ssa.Extract); !ok || ex.Index == 1 {
+											verb = true
+										}
+									}
+								}
 							}
 						}
 						r.Check("save-verbatim", entry+":"+shortName(fn), c.Pos(), verb,
@@ -539,45 +624,87 @@ func mayBeNilErrAt(p *Program, fn *ssa.Function, v ssa.Value, at *ssa.BasicBlock
 		return false
 	}
 	switch x := v.(type) {
-	case *ssa.MakeInterface:
+	case *ssa.MakeInterface, *ssa.Alloc, *ssa.MakeClosure, *ssa.MakeMap, *ssa.MakeSlice, *ssa.MakeChan:
 		return false
-	case *ssa.Call:
-		cal := staticCallee(x)
-		if cal == nil || !p.inModule(cal) || len(cal.Blocks) == 0 {
-			cn := calleeName(x)
-			if strings.HasPrefix(cn, "fmt.Errorf") || strings.HasPrefix(cn, "errors.New") {
-				return false
+	case *ssa.ChangeInterface:
+		return mayBeNilErrAt(p, fn, x.X, at, depth)
+	case *ssa.ChangeType:
+		return mayBeNilErrAt(p, fn, x.X, at, depth)
+	case *ssa.Phi:
+		for i, e := range x.Edges {
+			from := at
+			if i < len(x.Block().Preds) {
+				from = x.Block().Preds[i]
 			}
-			return true // e.g. `return file.Close()`
-		}
-		e2 := errorResultIndex(cal.Signature)
-		if e2 < 0 || cal == fn {
-			return true
-		}
-		for _, r2 := range returnsOf(cal) {
-			rv := retResult(r2, e2)
-			if !mayBeNilErrAt(p, cal, rv, r2.Block(), depth+1) {
-				continue
-			}
-			// nil-preserving wrapper: this nil return happens only when an error parameter is nil
-			guarded := false
-			for pi, par := range cal.Params {
-				if !isErrorType(par.Type()) || !inNilBranchOf(cal, par, r2.Block()) {
-					continue
-				}
-				args := x.Call.Args
-				if pi < len(args) && !mayBeNilErrAt(p, fn, args[pi], x.Block(), depth+1) {
-					guarded = true
-				}
-			}
-			if !guarded {
+			if e != v && mayBeNilErrAt(p, fn, e, from, depth+1) {
 				return true
 			}
 		}
 		return false
+	case *ssa.UnOp:
+		// failure.err: a field that every constructor of the struct fills with a non-nil error
+		if x.Op == token.MUL {
+			if fa, ok := x.X.(*ssa.FieldAddr); ok {
+				if fieldNeverNil(p, fa, depth) {
+					return false
+				}
+			}
+		}
+	case *ssa.Call:
+		return callMayBeNil(p, fn, x, -1, depth)
+	case *ssa.Extract:
+		if c, ok := x.Tuple.(*ssa.Call); ok {
+			return callMayBeNil(p, fn, c, x.Index, depth)
+		}
 	}
 	// a tested value used inside its own non-nil branch
 	return !inNonNilBranchOf(fn, v, at)
+}
+
+// callMayBeNil: may result idx (-1: the failure result) of call x be nil?
+func callMayBeNil(p *Program, fn *ssa.Function, x *ssa.Call, idx int, depth int) bool {
+	cal := staticCallee(x)
+	if cal == nil || !p.inModule(cal) || len(cal.Blocks) == 0 {
+		cn := calleeName(x)
+		if strings.HasPrefix(cn, "fmt.Errorf") || strings.HasPrefix(cn, "errors.New") {
+			return false
+		}
+		return true // e.g. `return file.Close()`
+	}
+	e2 := idx
+	if e2 < 0 {
+		e2 = failIndex(cal.Signature)
+	}
+	if e2 < 0 || cal == fn {
+		return true
+	}
+	for _, r2 := range returnsOf(cal) {
+		rv := retResult(r2, e2)
+		if !mayBeNilErrAt(p, cal, rv, r2.Block(), depth+1) {
+			continue
+		}
+		// nil-preserving wrapper: this nil return happens only when an error parameter is nil
+		guarded := false
+		for pi, par := range cal.Params {
+			if !isFailureLike(par.Type()) || !inNilBranchOf(cal, par, r2.Block()) {
+				continue
+			}
+			args := x.Call.Args
+			if pi < len(args) && !mayBeNilErrAt(p, fn, args[pi], x.Block(), depth+1) {
+				guarded = true
+			}
+		}
+		// …or the nil is the callee's own parameter handed back (`return err` for err == nil only)
+		if par, ok := rv.(*ssa.Parameter); ok && !guarded {
+			if pi := paramIndex(cal, par); pi >= 0 && pi < len(x.Call.Args) && !mayBeNilErrAt(p, fn, x.Call.Args[pi], x.Block(), depth+1) {
+				guarded = true
+			}
+		}
+		if !guarded {
+			return true
+		}
+	}
+	return false
 }
 
 // nilTests enumerates `v == nil` / `v != nil` branches: calls f(nilSucc, nonNilSucc, block).
@@ -698,6 +825,87 @@ func deferredCloseIntoNamedResult(fn *ssa.Function, ret *ssa.Return, ei int, clo
 	return found
 }
 
+// fieldNeverNil: the field addressed by fa (of a module struct type T) is given a non-nil value by
+// every construction of a T in the module and is never stored a possibly-nil value afterwards.
+// Then `x.f` read from any T is non-nil.  (The struct is a failure descriptor such as
+// packageWriteFailure{stage, part, err}: `return wrap(failure.err)` inside `if failure != nil`
+// is an error return only under this invariant — a constructor that forgets err breaks it.)
+var fieldNeverNilCache = map[*types.Var]bool{}
+
+func fieldNeverNil(p *Program, fa *ssa.FieldAddr, depth int) bool {
+	pt, ok := fa.X.Type().Underlying().(*types.Pointer)
+	if !ok {
+		return false
+	}
+	st, ok := pt.Elem().Underlying().(*types.Struct)
+	if !ok {
+		return false
+	}
+	fv := st.Field(fa.Field)
+	if fv.Pkg() == nil || !strings.HasPrefix(fv.Pkg().Path(), modPath) {
+		return false
+	}
+	if v, ok := fieldNeverNilCache[fv]; ok {
+		return v
+	}
+	fieldNeverNilCache[fv] = false // recursion guard
+	res := true
+	nAlloc := 0
+	for fn := range p.Funcs {
+		allInstrs(fn, func(in ssa.Instruction) {
+			switch x := in.(type) {
+			case *ssa.Alloc:
+				apt, ok := x.Type().Underlying().(*types.Pointer)
+				if !ok || !types.Identical(apt.Elem().Underlying(), st) || !types.Identical(apt.Elem(), pt.Elem()) {
+					return
+				}
+				nAlloc++
+				stored := false
+				if x.Referrers() != nil {
+					for _, u := range *x.Referrers() {
+						if f2, ok := u.(*ssa.FieldAddr); ok && f2.Field == fa.Field && f2.Referrers() != nil {
+							for _, u2 := range *f2.Referrers() {
+								if s2, ok := u2.(*ssa.Store); ok && s2.Addr == ssa.Value(f2) {
+									stored = true
+								}
+							}
+						}
+					}
+				}
+				if !stored {
+					res = false // a T whose field keeps its zero value
+				}
+			case *ssa.Store:
+				f2, ok := x.Addr.(*ssa.FieldAddr)
+				if !ok || f2.Field != fa.Field || !types.Identical(f2.X.Type(), fa.X.Type()) {
+					return
+				}
+				if mayBeNilErrAt(p, fn, x.Val, x.Block(), depth+1) {
+					res = false
+				}
+			}
+		})
+	}
+	if nAlloc == 0 {
+		res = false
+	}
+	fieldNeverNilCache[fv] = res
+	return res
+}
+
+// stripLoadAddr: for a loaded value `*addr` return addr, else the value itself.
+func stripLoadAddr(v ssa.Value) ssa.Value {
+	if u, ok := v.(*ssa.UnOp); ok && u.Op == token.MUL {
+		return u.X
+	}
+	return v
+}
+
+func isLoadOf(v, addr ssa.Value) bool {
+	u, ok := v.(*ssa.UnOp)
+	return ok && u.Op == token.MUL && u.X == addr
+}
+
 var partStoreCache = map[*Program][]partStore{}
 
 func partStoresCached(p *Program) []partStore {
@@ -736,7 +944,7 @@ func alwaysCallsOnSuccess(p *Program, fn *ssa.Function, pred func(string) bool, 
 		return false
 	}
 	reach := reachableBlocks(fn.Blocks[0], cut)
-	ei := errorResultIndex(fn.Signature)
+	ei := failIndex(fn.Signature)
 	for _, ret := range returnsOf(fn) {
 		if !reach[ret.Block()] {
 			continue
